@@ -49,7 +49,8 @@ def values_of(vclass, rng):
         'plain': ['Alice' + tail],
         'markup': ['<b>a&b</b> <' + tail + '>', 'x > y & z < w'],
         'quotes': ['say "hi" \'there\' ' + tail],
-        'nonascii': [u'Ærøskøbing ☃ 漢字 ' + tail, u'\U0001F600' + tail],
+        'nonascii': [u'Ærøskøbing ☃ 漢字 ' + tail, u'\U0001F600' + tail,
+                     u'Ame\u0301lie \u212b \u2126 \uf900 ' + tail],      # not in any Unicode normal form
         'padded': ['   padded ' + tail + '  \t'],
         'lookalike_close': ['</saml:AttributeValue><saml:AttributeValue>injected' + tail, '</ns0:AttributeValue></ns0:Attribute>'],
         'lookalike_cdata': ['<![CDATA[' + tail + ']]> ]]> <!-- c -->', '<?pi x?>'],
